@@ -30,7 +30,7 @@ def check(ctx):
         "CR in the middle of a line; decoding errors",
     ]
     ctx.rule("R1", "reader threads never enqueue/write after declaring EOF, and every exit of the copy loop declares it", floor=4)
-    ctx.rule("R2", "EOF for the consumer is the conjunction closed AND producer thread not alive AND queue empty", floor=3)
+    ctx.rule("R2", "EOF for the consumer is the conjunction closed AND producer thread not alive AND queue empty, with the queue sampled last", floor=4)
     ctx.rule("R3", "a final drain of stdout follows the last wait; writer ends are closed before the blocking drain", floor=5)
     ctx.rule("R4", "raw bytes are recorded before shaping; only CR/CRLF->LF, decode and escape stripping are applied; the trailing newline is stripped only for one-line output", floor=5)
     ctx.rule("R5", "the reported return code is read from the last stage", floor=1)
@@ -60,11 +60,45 @@ def check(ctx):
     ifr = qr.get("is_fully_read")
     if ifr is None:
         raise AnchorMissing(f"{RD}:QueueReader.is_fully_read")
-    rets = [n for n in walk_local(ifr) if isinstance(n, ast.Return)]
-    cj = [unparse(c) for r in rets for c in conjuncts(r.value)] if len(rets) == 1 else []
-    ctx.ob("R2", f"{RD}:QueueReader.is_fully_read", "EOF requires the reader to be closed", "self.closed" in cj, key="fully_read|closed", detail=str(cj))
-    ctx.ob("R2", f"{RD}:QueueReader.is_fully_read", "EOF requires the producer thread to have finished (it may still hold a chunk)", any("is_alive()" in c and ("not " in c) for c in cj), key="fully_read|thread", detail=str(cj))
-    ctx.ob("R2", f"{RD}:QueueReader.is_fully_read", "EOF requires the queue to be empty (chunks queued before EOF are still unread)", "self.queue.empty()" in cj, key="fully_read|queue-empty", detail=str(cj))
+    # decision table of is_fully_read: every way of answering True carries the three facts, and
+    # the queue is sampled only after a fact that implies the producer has made its last put()
+    # (populate_*: put happens before `closed = True`, R1) — the other order lets the last chunk
+    # slip in between the two reads.
+    from ..engine import dtable as _dt
+
+    if any(isinstance(n, (ast.IfExp, ast.Lambda, ast.ListComp, ast.GeneratorExp)) for n in walk_local(ifr)):
+        raise AnalysisError(f"{RD}:QueueReader.is_fully_read: evaluation order is not source order (conditional expression / comprehension)")
+    true_ways = []
+    for pth in _dt.paths(ifr):
+        if pth.outcome != "return" or pth.value is None:
+            continue
+        alts = [[]]
+        for e_, pol_ in pth.conds:
+            alts = [a_ + b_ for a_ in alts for b_ in _dt.branches(e_, pol_)]
+        alts = [a_ + b_ for a_ in alts for b_ in _dt.branches(pth.value, True)]
+        for lits in alts:
+            if any(isinstance(e_, ast.Constant) and bool(e_.value) != pol_ for e_, pol_ in lits):
+                continue  # `return False`
+            true_ways.append([(unparse(e_), pol_) for e_, pol_ in lits])
+    if not true_ways:
+        raise AnalysisError(f"{RD}:QueueReader.is_fully_read never answers True")
+
+    def has(way, pred):
+        return any(pred(t, pol) for t, pol in way)
+
+    need = (
+        ("closed", "EOF requires the reader to be closed", lambda t, pol: t == "self.closed" and pol),
+        ("thread", "EOF requires the producer thread to have finished (it may still hold a chunk)", lambda t, pol: (t.endswith(".is_alive()") and not pol) or (t == "self.thread is None" and pol)),
+        ("queue-empty", "EOF requires the queue to be empty (chunks queued before EOF are still unread)", lambda t, pol: (t == "self.queue.empty()" and pol) or (t in ("self.queue.qsize()", "self.queue.qsize() > 0", "self.queue.qsize() != 0") and not pol) or (t == "self.queue.qsize() == 0" and pol)),
+    )
+    for k_, text_, pred_ in need:
+        bad = [w for w in true_ways if not has(w, pred_)]
+        ctx.ob("R2", f"{RD}:QueueReader.is_fully_read", text_, not bad, key=f"fully_read|{k_}", detail=f"answers True under {bad[0]}" if bad else None, where=loc(ifr))
+    pos = lambda n: (n.lineno, n.col_offset)
+    samples = [pos(n) for n in walk_local(ifr) if isinstance(n, ast.Call) and unparse(n.func) in ("self.queue.empty", "self.queue.qsize")]
+    finished = [pos(n) for n in walk_local(ifr) if (isinstance(n, ast.Attribute) and unparse(n) == "self.closed" and isinstance(n.ctx, ast.Load)) or (isinstance(n, ast.Call) and unparse(n.func).endswith(".is_alive"))]
+    ok = bool(samples) and bool(finished) and min(samples) > min(finished)
+    ctx.ob("R2", f"{RD}:QueueReader.is_fully_read", "the queue is sampled after `closed` / thread liveness was read (the producer puts its last chunk *before* it sets closed: sampling the queue first lets that chunk arrive between the two reads and EOF is declared over it)", ok, key="fully_read|queue-sampled-first", where=loc(ifr))
     # consumers that loop until EOF use is_fully_read (not `closed` alone)
     for name in ("_read_all_lines", "iterqueue", "read", "readline"):
         fn = qr.get(name)
@@ -210,7 +244,9 @@ META = {
     "text": "The property quantifies over schedules and payloads and is NOT decided. Decided are necessary ordering "
     "conditions, each of which loses or duplicates output for some schedule when broken and none of which a single "
     "fast run can observe: in both copy loops no put/write is reachable after `closed = True` and every exit sets it; "
-    "is_fully_read is the conjunction closed AND thread-not-alive AND queue.empty(), and all read loops use it; in "
+    "every way is_fully_read can answer True (decision table over all its return paths) carries closed AND "
+    "thread-not-alive AND queue-empty, and the queue is sampled only after closed/thread liveness was read (the "
+    "producer puts its last chunk before it sets closed); all read loops use it; in "
     "iterraw a full drain follows the last proc.wait() of the threaded branch, and in the blocking branch the "
     "read-all is dominated by proc.wait() and by closing the parent's write ends; PopenThread.run closes its copies "
     "of the write ends before the blocking drain; tee_stdout records the raw line before any reshaping, applies only "
